@@ -320,7 +320,7 @@ section
 variable (M : Model) (ν : BaseValues) (dom : Name → Nat) {G : MG Name}
 
 theorem lines4to9_sound_frag (hM : Compatible M G) (hn : ∀ pmf ∈ M.noise, pmf.sum = 1)
-    (hdom : ∀ u d v, solve M u d v < dom v) (hG : G.WF) (hdl : ∀ e ∈ G.di, e.1 ≠ e.2) (hbl : ∀ e ∈ G.bi, e.1 ≠ e.2)
+    (hdom : ∀ v ps us, M.f v ps us < dom v) (hG : G.WF) (hdl : ∀ e ∈ G.di, e.1 ≠ e.2) (hbl : ∀ e ∈ G.bi, e.1 ≠ e.2)
     {ordf : List World → List World} (hord : PermOrder ordf) {dordf : List Var → List Var} (hdo : PermDistrict dordf)
     (rec : Event → Except Err Expr)
     (hrec : ∀ w' ev' e', Frag G w' ev' → rec ev' = .ok e' → ∀ τ, cden M ν dom e' τ = probEvent M (nuOf ν τ) ev')
@@ -365,7 +365,7 @@ theorem lines4to9_sound_frag (hM : Compatible M G) (hn : ∀ pmf ∈ M.noise, pm
               subst h
               obtain ⟨hrsnd, hrsm⟩ := free_spec facts cf (fun n => ((mem_nsiSubgraph_iff cf n)).symm)
               rw [cden_sumSafe]
-              rw [← sumOver_world M ν dom hdom facts hfr hkeysnsi _ hT _ hrsnd hrsm σ]
+              rw [← sumOver_world M ν dom hM hdom facts hfr hkeysnsi _ hT _ hrsnd hrsm σ]
               apply sumOver_congr
               intro τ
               rw [cden_productSafe]
@@ -404,14 +404,14 @@ theorem lines4to9_sound_frag (hM : Compatible M G) (hn : ∀ pmf ∈ M.noise, pm
               fun n => ⟨fun h => h.1, fun h => ⟨h, ((mem_nsiSubgraph_iff cf n).1 h).2⟩⟩
             obtain ⟨hrsnd, hrsm⟩ := free_spec facts (nsiSubgraph cf) hsubnodes
             rw [cden_sumSafe]
-            rw [← sumOver_world M ν dom hdom facts hfr hkeysnsi _ hT _ hrsnd hrsm σ]
+            rw [← sumOver_world M ν dom hM hdom facts hfr hkeysnsi _ hT _ hrsnd hrsm σ]
             apply sumOver_congr
             intro τ
             exact line9_leaf M ν dom hM facts hfr e9 h9 τ
 
 /-- **ID\* is sound on the fragment** (all fuels, all readings of the free symbols) -/
 theorem idStarFuel_sound_frag (hM : Compatible M G) (hn : ∀ pmf ∈ M.noise, pmf.sum = 1)
-    (hdom : ∀ u d v, solve M u d v < dom v) (hG : G.WF) (hdl : ∀ e ∈ G.di, e.1 ≠ e.2) (hbl : ∀ e ∈ G.bi, e.1 ≠ e.2)
+    (hdom : ∀ v ps us, M.f v ps us < dom v) (hG : G.WF) (hdl : ∀ e ∈ G.di, e.1 ≠ e.2) (hbl : ∀ e ∈ G.bi, e.1 ≠ e.2)
     {ordf : List World → List World} (hord : PermOrder ordf) {dordf : List Var → List Var} (hdo : PermDistrict dordf) :
     ∀ (fuel : Nat) (w : World) (ev : Event) (e : Expr), Frag G w ev → idStarFuel ordf dordf G fuel ev = .ok e →
       ∀ σ, cden M ν dom e σ = probEvent M (nuOf ν σ) ev := by
@@ -444,5 +444,139 @@ theorem idStarFuel_sound_frag (hM : Compatible M G) (hn : ∀ pmf ∈ M.noise, p
           (fun w' ev' e' hfr' h' τ => ih w' ev' e' hfr' h' τ) w ev hfr hk e h σ
 
 end
+
+end Y0.Cf
+
+namespace Y0.Cf
+open Relation MG Fscm
+
+/-! ## on the fragment ID* never refuses -/
+
+theorem conflicts_nil_of_unst (sub : MG Var) (nev : Event) (h1 : ∀ n ∈ sub.nodes, ∀ i ∈ n.ivs, i.star = false)
+    (h2 : Unst nev) (h3 : ∀ k ∈ nev.keys, ∀ i ∈ k.ivs, i.star = false) : conflicts sub nev = [] := by
+  unfold conflicts
+  rw [List.flatMap_eq_nil_iff]
+  intro i hi
+  have his : i.star = false := by
+    unfold cfInterventions at hi
+    rw [mem_dedup', List.mem_flatMap] at hi
+    obtain ⟨n, hn, hin⟩ := hi
+    exact h1 n hn i hin
+  rw [List.map_eq_nil_iff, List.filter_eq_nil_iff]
+  intro e he
+  have hes : e.star = false := by
+    unfold evidence at he
+    rw [mem_dedup', List.mem_append] at he
+    rcases he with he | he
+    · obtain ⟨p, hp, rfl⟩ := List.mem_map.1 he
+      rw [h2 p hp]
+    · unfold cfInterventions at he
+      rw [mem_dedup', List.mem_flatMap] at he
+      obtain ⟨k, hk, hik⟩ := he
+      exact h3 k hk e hik
+  simp [his, hes]
+
+theorem lines4to9_not_unid_frag {G : MG Name} (hG : G.WF) (hdl : ∀ e ∈ G.di, e.1 ≠ e.2) (hbl : ∀ e ∈ G.bi, e.1 ≠ e.2)
+    {ordf : List World → List World} (hord : PermOrder ordf) {dordf : List Var → List Var} (hdo : PermDistrict dordf)
+    (rec : Event → Except Err Expr)
+    (hrec : ∀ w' ev', Frag G w' ev' → rec ev' ≠ .error .unidentifiable)
+    (w : World) (ev : Event) (hfr : Frag G w ev) (hk : KeysNSI ev) :
+    idStarLines4to9 ordf dordf G rec ev ≠ .error .unidentifiable := by
+  intro h
+  unfold49 at h
+  cases hcg : makeCounterfactualGraph ordf G ev with
+  | error err =>
+    rw [hcg] at h
+    simp only [Except.error.injEq] at h
+    subst h
+    have ht := (cg_error_iff_cyclic ordf G ev _).1 hcg
+    by_cases hA : G.Acyclic
+    · obtain ⟨l, hl⟩ := MG.topologicalSort_total G hG hA
+      rw [hl] at ht; cases ht
+    · rw [MG.topologicalSort_cyclic G hG hA] at ht
+      cases ht
+  | ok v =>
+    rw [hcg] at h
+    simp only at h
+    rcases v with ⟨cf, new⟩
+    obtain ⟨nev, rfl, facts⟩ := frag_facts hord hG hdl hbl hfr hk.1 hcg
+    simp only at h
+    cases hc : isConnected (nsiSubgraph cf) with
+    | error err =>
+      rw [hc] at h
+      simp only [Except.error.injEq] at h
+      subst h
+      have := isConnected_error _ _ hc
+      cases this
+    | ok c =>
+      rw [hc] at h
+      simp only at h
+      split at h
+      · cases hevs : eventsOfEachDistrict dordf cf nev with
+        | error err =>
+          obtain ⟨evs, hevs', _⟩ := eventsOfEachDistrict_ok hdo.subset cf nev
+          rw [hevs'] at hevs; cases hevs
+        | ok evs =>
+          rw [hevs] at h
+          simp only at h
+          split at h
+          · cases h
+          · cases hm : evs.mapM rec with
+            | error err =>
+              rw [hm] at h
+              simp only [Except.error.injEq] at h
+              subst h
+              obtain ⟨x, hx, hxe⟩ := mapM_error _ _ _ hm
+              have hxD : ∃ D ∈ (nsiSubgraph cf).districts, eventsOfDistrict cf (dordf D) nev = .ok x := by
+                unfold eventsOfEachDistrict at hevs
+                exact mapM_ok_mem _ _ _ hevs x hx
+              obtain ⟨D, hD, hDx⟩ := hxD
+              obtain ⟨pillow, _, _, hfrx⟩ := frag_of_district hord hdo hG hdl hbl hfr.good hcg facts hevs D hD x hDx
+              exact hrec _ x hfrx hxe
+            | ok fs => rw [hm] at h; cases h
+      · split at h
+        · rename_i hconf
+          -- a conflict needs a starred symbol
+          have : conflicts (nsiSubgraph cf) nev = [] := by
+            apply conflicts_nil_of_unst _ _ _ facts.nevUnst
+            · intro k hkk i hi
+              rcases facts.shape k (facts.keysNodes k hkk) with h | h
+              · rw [h] at hi; cases hi
+              · rw [h] at hi; exact hfr.wUnst i hi
+            · intro n hn i hi
+              have hng := ((mem_nsiSubgraph_iff cf n).1 hn).1
+              rcases facts.shape n hng with h | h
+              · rw [h] at hi; cases hi
+              · rw [h] at hi; exact hfr.wUnst i hi
+          rw [this] at hconf
+          simp at hconf
+        · cases h9 : line9 (nsiSubgraph cf) with
+          | error err =>
+            have hne : (nsiSubgraph cf).nodes ≠ [] := cg_nsi_nonempty hord.good hcg hk hfr.good.ok
+            obtain ⟨e9, he9⟩ := line9_ok _ hne
+            rw [he9] at h9; cases h9
+          | ok e9 => rw [h9] at h; cases h
+
+theorem idStarFuel_not_unid_frag {G : MG Name} (hG : G.WF) (hdl : ∀ e ∈ G.di, e.1 ≠ e.2) (hbl : ∀ e ∈ G.bi, e.1 ≠ e.2)
+    {ordf : List World → List World} (hord : PermOrder ordf) {dordf : List Var → List Var} (hdo : PermDistrict dordf) :
+    ∀ (fuel : Nat) (w : World) (ev : Event), Frag G w ev → idStarFuel ordf dordf G fuel ev ≠ .error .unidentifiable := by
+  intro fuel
+  induction fuel with
+  | zero => intro w ev _ h; simp only [idStarFuel] at h; cases h
+  | succ fuel ih =>
+    intro w ev hfr h
+    simp only [idStarFuel] at h
+    unfold idStarBody at h
+    split at h
+    · cases h
+    · rename_i hne
+      rw [frag_no_violation hfr] at h
+      simp only [Bool.false_eq_true, ↓reduceIte] at h
+      split at h
+      · exact ih w _ (frag_removeTautologies hfr) h
+      · rename_i h3
+        have hk : KeysNSI ev := keysNSI_of_lines123 ev (by intro h0; simp [h0] at hne) (frag_no_violation hfr)
+          (eqv_true_of_not _ _ h3) hfr.good.ok
+        exact lines4to9_not_unid_frag hG hdl hbl hord hdo _ (fun w' ev' hfr' => ih w' ev' hfr') w ev hfr hk h
 
 end Y0.Cf
